@@ -31,6 +31,11 @@ pub fn worker_main(prop: &str, tier: Tier, seed: u64, shard: u32, nshards: u32, 
     let scratch = Path::new(journal).parent().unwrap().join("cwd");
     std::fs::create_dir_all(&scratch).expect("scratch dir");
     std::env::set_current_dir(&scratch).expect("chdir scratch");
+    // safety net: a generated program must not be able to exhaust the machine's memory
+    unsafe {
+        let lim = libc::rlimit { rlim_cur: 3 << 30, rlim_max: 3 << 30 };
+        libc::setrlimit(libc::RLIMIT_AS, &lim);
+    }
     watchdog::set_limit_ms(p.watchdog_ms());
     watchdog::start();
     let prop_s = prop.to_string();
